@@ -107,8 +107,8 @@ type history struct {
 	labels  map[string]bool
 	scHash  string
 	// caches
-	keys map[string]map[string]int // snapshot -> replay key -> largest prefix with that key
-	vkey map[string]int            // validSnaps key -> largest prefix
+	keys map[string]map[string][]int // snapshot -> replay key -> prefixes with that key (ascending)
+	vkey map[string][]int            // validSnaps key -> prefixes (ascending)
 	segs []int                     // file ids of wal segments at the end, in sequence order
 	truncated bool                 // crash instants cut short because of a known finding
 }
@@ -139,20 +139,61 @@ func (h *history) firstSyncingSaveWithCut() int {
 
 func snapKey(s walpb.Snapshot) string { return fmt.Sprintf("%d/%d", s.Index, s.Term) }
 
-func (h *history) replayKeys(s walpb.Snapshot) map[string]int {
+func (h *history) replayKeys(s walpb.Snapshot) map[string][]int {
 	k := snapKey(s)
 	if m, ok := h.keys[k]; ok {
 		return m
 	}
-	m := map[string]int{}
+	m := map[string][]int{}
 	for p := 0; p <= len(h.recs); p++ {
 		r := replay(h.recs[:p], s.Index, s.Term)
 		if r.ok {
-			m[hashKey(r.key())] = p
+			hk := hashKey(r.key())
+			m[hk] = append(m[hk], p)
 		}
 	}
 	h.keys[k] = m
 	return m
+}
+
+// pick returns a prefix length in [lo, hi] from an ascending list (the largest one), or
+// the largest below lo / smallest above hi with ok=false.
+func pick(ps []int, lo, hi int) (p int, ok bool) {
+	p = -1
+	for _, x := range ps {
+		if x >= lo && x <= hi {
+			p, ok = x, true
+		}
+	}
+	if !ok && len(ps) > 0 {
+		p = ps[len(ps)-1]
+		for _, x := range ps {
+			if x > hi {
+				p = x
+				break
+			}
+		}
+		for _, x := range ps {
+			if x < lo {
+				p = x
+			}
+		}
+	}
+	return
+}
+
+// writtenRecords: number of saved records whose bytes had all been written at cs (no
+// reader can return more than that).
+func (h *history) writtenRecords(cs *crashState) int {
+	n := 0
+	for n < len(h.recs) {
+		r := &h.recs[n]
+		if r.file < 0 || r.end > cs.files[r.file].written {
+			break
+		}
+		n++
+	}
+	return n
 }
 
 func hashKey(s string) string {
@@ -161,11 +202,12 @@ func hashKey(s string) string {
 	return string(f.Sum(nil))
 }
 
-func (h *history) validSnapKeys() map[string]int {
+func (h *history) validSnapKeys() map[string][]int {
 	if h.vkey == nil {
-		h.vkey = map[string]int{}
+		h.vkey = map[string][]int{}
 		for p := 0; p <= len(h.recs); p++ {
-			h.vkey[validSnaps(h.recs[:p])] = p
+			k := validSnaps(h.recs[:p])
+			h.vkey[k] = append(h.vkey[k], p)
 		}
 	}
 	return h.vkey
@@ -550,9 +592,12 @@ func summarize(meta []byte, st raftpb.HardState, ents []raftpb.Entry) string {
 	return fmt.Sprintf("meta=%s state={%s} ents(%d)=%v", canonMeta(meta), canonState(st), len(ents), ce)
 }
 
-func (h *history) wantText(s walpb.Snapshot, lo int) string {
+func (h *history) wantText(s walpb.Snapshot, lo, hi int) string {
+	if hi < lo {
+		hi = lo
+	}
 	a := replay(h.recs[:lo], s.Index, s.Term)
-	b := replay(h.recs, s.Index, s.Term)
+	b := replay(h.recs[:hi], s.Index, s.Term)
 	f := func(r replayResult) string {
 		if !r.ok {
 			return "no effect (" + r.why + ")"
@@ -563,7 +608,7 @@ func (h *history) wantText(s walpb.Snapshot, lo int) string {
 		}
 		return fmt.Sprintf("meta=%s state={%s} ents(%d)=%v", r.meta, r.state, len(r.ents), e)
 	}
-	return fmt.Sprintf("an error, or replay(records[0:p]) for some %d <= p <= %d; p=%d gives %s; p=%d gives %s", lo, len(h.recs), lo, f(a), len(h.recs), f(b))
+	return fmt.Sprintf("an error, or replay(records[0:p]) for some %d <= p <= %d; p=%d gives %s; p=%d gives %s", lo, hi, lo, f(a), hi, f(b))
 }
 
 type evalCtx struct {
@@ -586,6 +631,7 @@ func (c *evalCtx) checkImage(im *image, lo int, rec *stats.Recorder, nontrivial 
 func (c *evalCtx) checkImageV(im *image, lo, loV int, rec *stats.Recorder, nontrivial bool, labels []string) {
 	h := c.h
 	c.counter++
+	hi := h.writtenRecords(im.cs)
 	files := h.materialize(im)
 	writeImage(c.dir, files)
 
@@ -603,10 +649,9 @@ func (c *evalCtx) checkImageV(im *image, lo, loV int, rec *stats.Recorder, nontr
 	if verr != nil {
 		labels = append(labels, "validsnapshots_error")
 	} else {
-		p, ok := h.validSnapKeys()[canonSnaps(vs)]
-		if !ok || p < loV {
+		if _, ok := pick(h.validSnapKeys()[canonSnaps(vs)], loV, hi); !ok {
 			h.fail(c.t, im, walpb.Snapshot{}, "ValidSnapshotEntries returned markers that are not those of a durable prefix", canonSnaps(vs),
-				fmt.Sprintf("an error, or the markers not above the commit index of records[0:p] for some p >= %d; p=%d gives [%s]; all records give [%s]", loV, loV, validSnaps(h.recs[:loV]), validSnaps(h.recs)))
+				fmt.Sprintf("an error, or the markers not above the commit index of records[0:p] for some %d <= p <= %d (%d records had been written at the crash); p=%d gives [%s]; p=%d gives [%s]", loV, hi, hi, loV, validSnaps(h.recs[:loV]), hi, validSnaps(h.recs[:hi])))
 		}
 	}
 	// 2. snapshots to open at: the newest valid one (production), sometimes another
@@ -637,7 +682,7 @@ func (c *evalCtx) checkImageV(im *image, lo, loV int, rec *stats.Recorder, nontr
 		}
 		r := safeOpen(c.dir, s, h.opt)
 		if r.panicked != nil {
-			h.fail(c.t, im, s, "reopening the image panicked", fmt.Sprint(r.panicked), h.wantText(s, lo))
+			h.fail(c.t, im, s, "reopening the image panicked", fmt.Sprint(r.panicked), h.wantText(s, lo, hi))
 		}
 		if r.err != nil {
 			labels = append(labels, "outcome_loud_error", "err:"+errClass(r.err))
@@ -649,22 +694,25 @@ func (c *evalCtx) checkImageV(im *image, lo, loV int, rec *stats.Recorder, nontr
 			continue
 		}
 		key := hashKey(resultKey(r.meta, r.st, r.ents))
-		p, ok := h.replayKeys(s)[key]
-		if !ok || p < lo {
+		ps := h.replayKeys(s)[key]
+		p, ok := pick(ps, lo, hi)
+		if !ok {
 			r.w.Close()
 			what := "reopen returned something that is not the effect of any prefix of the saved records"
-			if ok {
+			if len(ps) > 0 && p < lo {
 				what = fmt.Sprintf("reopen returned the effect of records[0:%d], which lacks records saved before the last completed sync (needs p >= %d)", p, lo)
+			} else if len(ps) > 0 {
+				what = fmt.Sprintf("reopen returned the effect of records[0:%d], but only %d records had been written when the crash happened", p, hi)
 			}
-			h.fail(c.t, im, s, what, summarize(r.meta, r.st, r.ents), h.wantText(s, lo))
+			h.fail(c.t, im, s, what, summarize(r.meta, r.st, r.ents), h.wantText(s, lo, hi))
 		}
 		if r.repaired {
 			labels = append(labels, "outcome_prefix_after_repair")
 		} else {
 			labels = append(labels, "outcome_prefix")
 		}
-		if p == len(h.recs) {
-			labels = append(labels, "prefix_is_everything")
+		if p == hi {
+			labels = append(labels, "prefix_is_everything_written")
 		}
 		// 3. continue on the reopened log, close, reopen: what was kept must be kept
 		c.continueAndReopen(im, s, &r, &labels)
@@ -770,7 +818,7 @@ func (c *evalCtx) continueAndReopen(im *image, s walpb.Snapshot, r *readOut, lab
 func runHistory(t *rapid.T, ops []opSpec, genLabels map[string]bool) *history {
 	base := scratchDir("c05-")
 	sc := &scriptSpec{Dir: filepath.Join(base, "w"), Out: filepath.Join(base, "out.json"), Ops: ops}
-	h := &history{sc: sc, opt: ops[0].Opt, labels: genLabels, keys: map[string]map[string]int{}}
+	h := &history{sc: sc, opt: ops[0].Opt, labels: genLabels, keys: map[string]map[string][]int{}}
 	ob, _ := json.Marshal(ops)
 	h.scHash = string(ob)
 	h.recs, h.opEnd = recordsOfOps(ops)
